@@ -676,3 +676,5 @@ def run(prog: Program, chk: Check) -> None:
     chk.call(f4, prog, chk)
     chk.call(f5, prog, chk)
     chk.call(f6, prog, chk)
+    from rules.c02 import none_mode_rule
+    chk.call(none_mode_rule, prog, chk, "F7")
